@@ -1473,3 +1473,424 @@ Proof.
   exists [TK 0; TN 9 true; TN 1 true; TK 1; TN 5 false; TN 1 false], [TK 0; TN 8 true; TN 1 true; TK 1; TN 6 false; TN 1 false].
   split; [reflexivity|]. split; [reflexivity|]. exists 4, 5, 6. repeat split; try reflexivity. discriminate.
 Qed.
+
+(* ============================================================================================== *)
+(* Part O : delete_unused_functions_and_classes                                                    *)
+(* ============================================================================================== *)
+Definition uniq_cls (M : module) : bool := nodup_names (map c_name (classes M)).
+
+Section DU.
+Variable M : module.
+Hypothesis Hnd : no_dyn M = true.
+Hypothesis Huniq : uniq_cls M = true.
+Let M' := du_pass M.
+Let ca := ctx_acts M.
+Let cs := classes M.
+Let vars := m_vars M.
+
+Definition kc (k : cls) : bool :=
+  cls_used_in ca cs vars (c_name k) || negb (forallb (meth_kept_in ca cs vars k) (c_meths k)).
+Definition du_cls (k : cls) : cls :=
+  mkCls (c_name k) (c_base k) (filter (meth_kept_in ca cs vars k) (c_meths k)) (c_alias k).
+
+Lemma du_items : m_items M' =
+  flat_map (fun it => match it with
+                      | IFunc g => if fn_used M (f_name g) then [it] else []
+                      | IClass k => if kc k then [IClass (du_cls k)] else []
+                      end) (m_items M).
+Proof. reflexivity. Qed.
+
+Lemma du_find_fn f : find_fn (m_items M') f = if fn_used M f then find_fn (m_items M) f else None.
+Proof.
+  rewrite du_items. induction (m_items M) as [|[k|g] tl IH]; simpl.
+  - destruct (fn_used M f); reflexivity.
+  - destruct (kc k); simpl; exact IH.
+  - destruct (fn_used M (f_name g)) eqn:Eu; simpl.
+    + destruct (Nat.eqb (f_name g) f) eqn:E; [|exact IH].
+      apply Nat.eqb_eq in E. rewrite <- E, Eu. reflexivity.
+    + destruct (Nat.eqb (f_name g) f) eqn:E; [|exact IH].
+      apply Nat.eqb_eq in E. rewrite IH, <- E, Eu. reflexivity.
+Qed.
+
+(* with distinct class names, the class found by name is the same one *)
+Lemma find_cls_uniq its c k :
+  nodup_names (map c_name (flat_map (fun it => match it with IClass k => [k] | _ => [] end) its)) = true ->
+  In (IClass k) its -> c_name k = c -> find_cls its c = Some k.
+Proof.
+  induction its as [|[k'|g] tl IH]; simpl; intros Hn Hin Hc; [contradiction| |].
+  - apply andb_true_iff in Hn. destruct Hn as [Hn1 Hn2]. destruct Hin as [Hin|Hin].
+    + inversion Hin; subst. rewrite Nat.eqb_refl. reflexivity.
+    + destruct (Nat.eqb (c_name k') c) eqn:E; [|apply IH; auto].
+      apply Nat.eqb_eq in E. apply negb_true_iff in Hn1. exfalso.
+      assert (nmem (c_name k') (map c_name (flat_map (fun it => match it with IClass k => [k] | _ => [] end) tl)) = true);
+        [|congruence].
+      apply nmem_In. apply in_map_iff. exists k. split; [congruence|].
+      apply in_flat_map. exists (IClass k). split; [exact Hin|left; reflexivity].
+  - destruct Hin as [Hin|Hin]; [discriminate|]. apply IH; auto.
+Qed.
+
+Lemma du_find_cls c :
+  find_cls (m_items M') c
+  = match find_cls (m_items M) c with Some k => if kc k then Some (du_cls k) else None | None => None end.
+Proof.
+  rewrite du_items. unfold uniq_cls, classes in Huniq.
+  induction (m_items M) as [|[k|g] tl IH]; simpl in *; [reflexivity| |].
+  - apply andb_true_iff in Huniq. destruct Huniq as [Hn1 Hn2].
+    destruct (Nat.eqb (c_name k) c) eqn:E.
+    + destruct (kc k); simpl; [rewrite E; reflexivity|].
+      (* the class is dropped: no other class has its name *)
+      rewrite (IH Hn2). destruct (find_cls tl c) as [k2|] eqn:E2; [|reflexivity]. exfalso.
+      apply find_cls_in in E2. destruct E2 as [E2 E3]. apply Nat.eqb_eq in E. apply negb_true_iff in Hn1.
+      assert (nmem (c_name k) (map c_name (flat_map (fun it => match it with IClass k => [k] | _ => [] end) tl)) = true);
+        [|congruence].
+      apply nmem_In. apply in_map_iff. exists k2. split; [congruence|].
+      apply in_flat_map. exists (IClass k2). split; [exact E2|left; reflexivity].
+    + destruct (kc k); simpl; [rewrite E|]; apply IH; exact Hn2.
+  - destruct (fn_used M (f_name g)); simpl; apply IH; exact Huniq.
+Qed.
+
+(* an attribute that some access mentions: the methods with that name are kept *)
+Lemma find_meth_filter (P : meth -> bool) ms m :
+  (forall x, In x ms -> m_name x = m -> P x = true) -> find_meth (filter P ms) m = find_meth ms m.
+Proof.
+  induction ms as [|y tl IH]; simpl; intros H; [reflexivity|].
+  destruct (Nat.eqb (m_name y) m) eqn:E.
+  - apply Nat.eqb_eq in E. rewrite (H y (or_introl eq_refl) E). simpl. rewrite E, Nat.eqb_refl. reflexivity.
+  - destruct (P y); simpl; [rewrite E|]; apply IH; intros x Hx; apply H; right; exact Hx.
+Qed.
+
+Definition attr_live (m : name) : Prop := attr_used_in ca cs m = true.
+Definition cls_live (k : cls) : Prop := In k cs /\ cls_named_in ca cs vars (c_name k) = true.
+
+Lemma alias_value_used k a m' : In k cs -> In (a, m') (c_alias k) -> attr_live m'.
+Proof.
+  intros Hk Ha. unfold attr_live, attr_used_in. apply orb_true_iff. right.
+  apply existsb_exists. exists k. split; [exact Hk|]. apply nmem_In. apply in_map_iff. exists (a, m'). auto.
+Qed.
+
+Lemma du_cls_attr k m : In k cs -> (attr_live m \/ (is_magic m = true /\ cls_named_in ca cs vars (c_name k) = true)) ->
+  cls_attr (du_cls k) m = cls_attr k m.
+Proof.
+  intros Hk Hm. unfold cls_attr. cbn [du_cls c_alias c_meths].
+  destruct (find_alias (c_alias k) m) as [m'|] eqn:Ea.
+  - apply find_alias_in in Ea. apply find_meth_filter. intros x Hx Hn. unfold meth_kept_in.
+    destruct (c_base k); [reflexivity|]. rewrite Hn. rewrite (alias_value_used k m m' Hk Ea). reflexivity.
+  - apply find_meth_filter. intros x Hx Hn. unfold meth_kept_in. destruct (c_base k); [reflexivity|].
+    rewrite Hn. destruct Hm as [Hm|[Hm1 Hm2]]; [rewrite Hm; reflexivity|rewrite Hm1, Hm2; apply orb_true_r].
+Qed.
+
+Lemma used_named c : cls_used_in ca cs vars c = true -> cls_named_in ca cs vars c = true.
+Proof.
+  unfold cls_used_in, cls_named_in. intros H.
+  apply orb_true_iff in H. destruct H as [H|H]; [rewrite H; reflexivity|].
+  apply orb_true_iff. right. apply existsb_exists in H. destruct H as [x [Hx H]].
+  apply andb_true_iff in H. apply existsb_exists. exists x. tauto.
+Qed.
+
+Lemma chain_used : forall f c k,
+  cls_used_in ca cs vars c = true -> In k (chain (m_items M) f c) ->
+  In k cs /\ cls_used_in ca cs vars (c_name k) = true.
+Proof.
+  induction f as [|f IH]; intros c k Hc Hin; simpl in Hin; [contradiction|].
+  destruct (find_cls (m_items M) c) as [k0|] eqn:E; [|contradiction].
+  apply find_cls_in in E. destruct E as [E1 E2]. apply in_classes in E1.
+  destruct Hin as [<-|Hin]; [rewrite E2; auto|].
+  destruct (c_base k0) as [b|] eqn:Eb; [|contradiction].
+  eapply IH; [|exact Hin]. unfold cls_used_in. apply orb_true_iff. left. apply orb_true_iff. left.
+  apply existsb_exists. exists k0. split; [exact E1|]. rewrite Eb. simpl. apply Nat.eqb_refl.
+Qed.
+
+Lemma kc_used k : cls_used_in ca cs vars (c_name k) = true -> kc k = true.
+Proof. intros H. unfold kc. rewrite H. reflexivity. Qed.
+
+Lemma du_chain : forall f c,
+  cls_used_in ca cs vars c = true ->
+  chain (m_items M') f c = map du_cls (chain (m_items M) f c).
+Proof.
+  induction f as [|f IH]; intros c Hc; simpl; [reflexivity|].
+  rewrite du_find_cls. destruct (find_cls (m_items M) c) as [k0|] eqn:E; [|reflexivity].
+  pose proof (find_cls_in _ _ _ E) as [E1 E2]. apply in_classes in E1.
+  rewrite kc_used by (rewrite E2; exact Hc). cbn [map du_cls c_base]. f_equal.
+  destruct (c_base k0) as [b|] eqn:Eb; [|reflexivity]. apply IH.
+  unfold cls_used_in. apply orb_true_iff. left. apply orb_true_iff. left.
+  apply existsb_exists. exists k0. split; [exact E1|]. rewrite Eb. simpl. apply Nat.eqb_refl.
+Qed.
+
+Lemma du_lookup ks m :
+  (forall k, In k ks -> In k cs) ->
+  (attr_live m \/ (is_magic m = true /\ forall k, In k ks -> cls_named_in ca cs vars (c_name k) = true)) ->
+  lookup_in (map du_cls ks) m = lookup_in ks m.
+Proof.
+  induction ks as [|k tl IH]; intros Hin Hm; simpl; [reflexivity|].
+  rewrite du_cls_attr; [|apply Hin; left; reflexivity|destruct Hm as [Hm|[Hm1 Hm2]]; [left; exact Hm|right; split; [exact Hm1|apply Hm2; left; reflexivity]]].
+  cbn [du_cls c_name]. destruct (cls_attr k m); [reflexivity|].
+  apply IH; [intros k' Hk'; apply Hin; right; exact Hk'|].
+  destruct Hm as [Hm|[Hm1 Hm2]]; [left; exact Hm|right; split; [exact Hm1|intros k' Hk'; apply Hm2; right; exact Hk']].
+Qed.
+Lemma du_after_owner ks o : after_owner (map du_cls ks) o = map du_cls (after_owner ks o).
+Proof. induction ks as [|k tl IH]; simpl; auto. destruct (Nat.eqb (c_name k) o); auto. Qed.
+
+(* what the code that still runs mentions is kept *)
+Definition act_ok (a : act) : Prop :=
+  (forall f, mod_call_of a = Some f -> fn_used M f = true) /\
+  (forall c, act_class a = Some c -> cls_used_in ca cs vars c = true) /\
+  (forall r m, attr_of a = Some (r, m) -> attr_live m) /\
+  is_dyn a = false.
+Definition code_ok (b : list act) : Prop := forall a, In a b -> act_ok a.
+Definition self_live (s : selfv) : Prop :=
+  match s with SInst c | SCls c => cls_used_in ca cs vars c = true | _ => True end.
+
+Lemma in_ca_ok ctx a :
+  In (ctx, a) ca -> (forall f, mod_call_of a = Some f -> fn_used M f = true) -> act_ok a.
+Proof.
+  intros Hin Hf.
+  assert (Hd : is_dyn a = false).
+  { unfold no_dyn in Hnd. rewrite forallb_forall in Hnd. specialize (Hnd _ Hin). simpl in Hnd.
+    apply negb_true_iff in Hnd. exact Hnd. }
+  split; [exact Hf|]. split; [|split; [|exact Hd]].
+  - intros c Hc. unfold cls_used_in. apply orb_true_iff. right. apply existsb_exists. exists (ctx, a).
+    split; [exact Hin|]. simpl. rewrite Hc, Hd. simpl. rewrite Nat.eqb_refl. reflexivity.
+  - intros r m Hm. unfold attr_live, attr_used_in. apply orb_true_iff. left. apply existsb_exists.
+    exists (ctx, a). split; [exact Hin|]. simpl. rewrite Hm. apply Nat.eqb_refl.
+Qed.
+
+Lemma uses_spec f b : existsb (fun a => match mod_call_of a with Some g => Nat.eqb f g | None => false end) b = true <->
+                      exists a, In a b /\ mod_call_of a = Some f.
+Proof.
+  rewrite existsb_exists. split.
+  - intros [a [Ha H]]. exists a. split; [exact Ha|]. destruct (mod_call_of a) as [g|] eqn:Eg; [|discriminate].
+    apply Nat.eqb_eq in H. subst g. reflexivity.
+  - intros [a [Ha H]]. exists a. split; [exact Ha|]. rewrite H. apply Nat.eqb_refl.
+Qed.
+
+Lemma code_ok_meth k x : In k cs -> In x (c_meths k) -> code_ok (m_body x).
+Proof.
+  intros Hk Hx a Ha. apply (in_ca_ok (Some (c_name k))).
+  - unfold ca, ctx_acts. apply in_or_app. left. apply in_flat_map. exists (IClass k).
+    split; [apply in_classes; exact Hk|]. apply in_flat_map. exists x. split; [exact Hx|].
+    apply in_map_iff. exists a. auto.
+  - intros f Hf. unfold fn_used. apply orb_true_iff. left. apply existsb_exists. exists (IClass k).
+    split; [apply in_classes; exact Hk|]. apply existsb_exists. exists x. split; [exact Hx|].
+    apply uses_spec. eauto.
+Qed.
+Lemma code_ok_fn f g : find_fn (m_items M) f = Some g -> fn_used M f = true -> code_ok (f_body g).
+Proof.
+  intros Hf Hu a Ha. pose proof (find_fn_in _ _ _ Hf) as Hin. apply (in_ca_ok None).
+  - unfold ca, ctx_acts. apply in_or_app. left. apply in_flat_map. exists (IFunc g).
+    split; [exact Hin|]. apply in_map_iff. exists a. auto.
+  - intros f' Hf'. destruct (Nat.eqb (f_name g) f') eqn:E.
+    + apply Nat.eqb_eq in E. subst f'.
+      assert (f_name g = f); [|congruence].
+      clear -Hf. induction (m_items M) as [|[k|g'] tl IH]; simpl in Hf; [discriminate|auto|].
+      destruct (Nat.eqb (f_name g') f) eqn:E; [inversion Hf; subst; apply Nat.eqb_eq; exact E|auto].
+    + unfold fn_used. apply orb_true_iff. left. apply existsb_exists. exists (IFunc g).
+      split; [exact Hin|]. rewrite E. simpl. apply uses_spec. eauto.
+Qed.
+Lemma code_ok_main : code_ok (map AInit (m_vars M) ++ m_main M).
+Proof.
+  intros a Ha. apply in_app_or in Ha. destruct Ha as [Ha|Ha].
+  - apply in_map_iff in Ha. destruct Ha as [c [<- Hc]]. split; [intros f H; discriminate|].
+    split; [|split; [intros r m H; discriminate|reflexivity]].
+    intros c' Hc'. simpl in Hc'. inversion Hc'; subst c'. unfold cls_used_in.
+    apply orb_true_iff. left. apply orb_true_iff. right. apply nmem_In. exact Hc.
+  - apply (in_ca_ok None).
+    + unfold ca, ctx_acts. apply in_or_app. right. apply in_map_iff. exists a. auto.
+    + intros f Hf. unfold fn_used. apply orb_true_iff. right. apply uses_spec. eauto.
+Qed.
+
+Definition IHdu (f : nat) : Prop :=
+  forall s owner b tr, code_ok b -> self_live s -> run M' f s owner b tr = run M f s owner b tr.
+Definition how_live (h : how) : Prop :=
+  match h with ViaInst c | ViaCls c => cls_used_in ca cs vars c = true end.
+Lemma bind_live h x n : how_live h -> self_live (fst (bind h x n)).
+Proof. unfold bind. destruct h, (m_kind x); simpl; auto; destruct (Nat.eqb n 0); simpl; auto. Qed.
+
+Lemma du_call_meth f h o x n read tr :
+  IHdu f -> code_ok (m_body x) -> how_live h ->
+  call_t (run M' f) (TMeth h o x) n read tr = call_t (run M f) (TMeth h o x) n read tr.
+Proof.
+  intros IH Hc Hh. unfold call_t. pose proof (bind_live h x n Hh) as Hl.
+  destruct (bind h x n) as [sv fits]. simpl in Hl.
+  assert (Hrun : forall tr0, run M' f sv (Some o) (m_body x) tr0 = run M f sv (Some o) (m_body x) tr0)
+    by (intros; apply IH; auto).
+  destruct (m_kind x), read, h, fits; try reflexivity; rewrite ?Hrun; reflexivity.
+Qed.
+
+Lemma du_via f h ks m n read tr :
+  IHdu f -> how_live h -> (forall k, In k ks -> In k cs) -> attr_live m ->
+  call_t (run M' f) (match lookup_in (map du_cls ks) m with Some (o, x) => TMeth h o x | None => TErr OAttrErr end) n read tr
+  = call_t (run M f) (match lookup_in ks m with Some (o, x) => TMeth h o x | None => TErr OAttrErr end) n read tr.
+Proof.
+  intros IH Hh Hks Hm. rewrite du_lookup by auto. rewrite lookup_in_k.
+  destruct (lookup_k ks m) as [[k x]|] eqn:El; cbn [option_map fst snd]; [|reflexivity].
+  apply lookup_k_in in El. destruct El as [Hk Ha]. apply cls_attr_in in Ha. destruct Ha as [Hx _].
+  apply du_call_meth; auto. eapply code_ok_meth; eauto.
+Qed.
+
+Lemma chain_cs c : cls_used_in ca cs vars c = true -> forall k, In k (chain (m_items M) CHAIN_FUEL c) -> In k cs.
+Proof. intros Hc k Hk. eapply chain_used; eauto. Qed.
+
+Lemma du_on_class f c (mk : name -> how) m n read tr :
+  IHdu f -> cls_used_in ca cs vars c = true -> how_live (mk c) -> attr_live m ->
+  call_t (run M' f)
+    (match find_cls (m_items M') c with
+     | None => TErr ONameErr
+     | Some _ => match lookup_in (chain (m_items M') CHAIN_FUEL c) m with Some (o, x) => TMeth (mk c) o x | None => TErr OAttrErr end
+     end) n read tr
+  = call_t (run M f)
+    (match find_cls (m_items M) c with
+     | None => TErr ONameErr
+     | Some _ => match lookup_in (chain (m_items M) CHAIN_FUEL c) m with Some (o, x) => TMeth (mk c) o x | None => TErr OAttrErr end
+     end) n read tr.
+Proof.
+  intros IH Hc Hh Hm. rewrite du_find_cls.
+  destruct (find_cls (m_items M) c) as [k0|] eqn:E; [|reflexivity].
+  apply find_cls_in in E. destruct E as [_ E2]. rewrite kc_used by (rewrite E2; exact Hc).
+  rewrite du_chain by exact Hc. apply du_via; auto. apply chain_cs. exact Hc.
+Qed.
+
+Lemma du_call_resolve f s owner a r m n read tr :
+  IHdu f -> act_ok a -> self_live s -> (a = ACall r m n \/ a = ARead r m) ->
+  call_t (run M' f) (resolve M' s owner r m) n read tr = call_t (run M f) (resolve M s owner r m) n read tr.
+Proof.
+  intros IH [Hf [Hcl [Hat _]]] Hs Ha.
+  assert (Hattr : r <> RMod -> attr_live m).
+  { intros Hr. apply (Hat r). destruct Ha as [->| ->]; destruct r; simpl; congruence. }
+  assert (Hcls : forall c, recv_class r = Some c -> cls_used_in ca cs vars c = true).
+  { intros c Hc. apply Hcl. destruct Ha as [->| ->]; simpl; exact Hc. }
+  unfold resolve. change (m_stores M') with (m_stores M). change (m_vars M') with (m_vars M).
+  destruct r as [|c|c|c|c| |].
+  - rewrite du_find_fn.
+    assert (Hu : fn_used M m = true) by (apply Hf; destruct Ha as [->| ->]; reflexivity).
+    rewrite Hu. destruct (nmem m (m_stores M)); [reflexivity|].
+    destruct (find_fn (m_items M) m) as [g|] eqn:Eg; [|reflexivity]. unfold call_t.
+    destruct read; [reflexivity|]. destruct (Nat.eqb (f_params g) n); [|reflexivity].
+    apply IH; [eapply code_ok_fn; eauto|exact Logic.I].
+  - apply (du_on_class f c ViaCls); [exact IH|apply Hcls; reflexivity|simpl; apply Hcls; reflexivity|apply Hattr; discriminate].
+  - apply (du_on_class f c ViaInst); [exact IH|apply Hcls; reflexivity|simpl; apply Hcls; reflexivity|apply Hattr; discriminate].
+  - apply (du_on_class f c ViaInst); [exact IH|apply Hcls; reflexivity|simpl; apply Hcls; reflexivity|apply Hattr; discriminate].
+  - destruct (nmem c (m_vars M)) eqn:Ev; [|reflexivity].
+    assert (Hc : cls_used_in ca cs vars c = true).
+    { unfold cls_used_in. apply orb_true_iff. left. apply orb_true_iff. right. exact Ev. }
+    apply (du_on_class f c ViaInst); [exact IH|exact Hc|exact Hc|apply Hattr; discriminate].
+  - destruct s as [|c|c| ]; try reflexivity; simpl in Hs.
+    + rewrite du_chain by exact Hs. apply du_via; [exact IH|exact Hs|apply chain_cs; exact Hs|apply Hattr; discriminate].
+    + rewrite du_chain by exact Hs. apply du_via; [exact IH|exact Hs|apply chain_cs; exact Hs|apply Hattr; discriminate].
+  - destruct s as [|c|c| ]; destruct owner as [o|]; try reflexivity; simpl in Hs.
+    + rewrite du_chain by exact Hs. rewrite du_after_owner. apply du_via; [exact IH|exact Hs| |apply Hattr; discriminate].
+      intros k Hk. eapply chain_cs; [exact Hs|]. eapply after_owner_incl; eauto.
+    + rewrite du_chain by exact Hs. rewrite du_after_owner. apply du_via; [exact IH|exact Hs| |apply Hattr; discriminate].
+      intros k Hk. eapply chain_cs; [exact Hs|]. eapply after_owner_incl; eauto.
+Qed.
+
+Lemma du_recv_then f r tr K K' :
+  IHdu f -> (forall c, creates r = Some c -> cls_used_in ca cs vars c = true) -> (forall tr1, K' tr1 = K tr1) ->
+  recv_then_t M' (run M' f) r tr K' = recv_then_t M (run M f) r tr K.
+Proof.
+  intros IH Hc HK. unfold recv_then_t. destruct (creates r) as [c|]; [|apply HK].
+  specialize (Hc c eq_refl). rewrite du_find_cls.
+  destruct (find_cls (m_items M) c) as [k0|] eqn:E; [|reflexivity].
+  apply find_cls_in in E. destruct E as [_ E2]. rewrite kc_used by (rewrite E2; exact Hc).
+  rewrite du_chain by exact Hc.
+  rewrite du_lookup; [|apply chain_cs; exact Hc|right; split; [reflexivity|]].
+  2:{ intros k Hk. apply used_named. eapply chain_used; eauto. }
+  rewrite lookup_in_k.
+  destruct (lookup_k (chain (m_items M) CHAIN_FUEL c) INIT) as [[k x]|] eqn:El; cbn [option_map fst snd]; [|apply HK].
+  apply lookup_k_in in El. destruct El as [Hk Hx]. apply cls_attr_in in Hx. destruct Hx as [Hx _].
+  pose proof (bind_live (ViaInst c) x 0 Hc) as Hl.
+  destruct (bind (ViaInst c) x 0) as [sv fits]. simpl in Hl. destruct fits; [|reflexivity].
+  assert (Hrun : forall tr0, run M' f sv (Some (c_name k)) (m_body x) tr0 = run M f sv (Some (c_name k)) (m_body x) tr0).
+  { intros. apply IH; auto. eapply code_ok_meth; [eapply chain_cs; eauto|exact Hx]. }
+  rewrite Hrun. destruct (m_kind x); try reflexivity;
+    destruct (run M f sv (Some (c_name k)) (m_body x) tr) as [tr1 []]; simpl; auto.
+Qed.
+
+Lemma du_sim : forall f, IHdu f.
+Proof.
+  induction f as [|f IH]; intros s owner b tr Hcode Hs; [reflexivity|].
+  destruct b as [|a rest]; [reflexivity|]. rewrite !run_S.
+  assert (Hrest : forall tr1, run M' f s owner rest tr1 = run M f s owner rest tr1).
+  { intros tr1. apply IH; auto. intros a' Ha'. apply Hcode. right. exact Ha'. }
+  pose proof (Hcode a (or_introl eq_refl)) as Hok.
+  assert (Hact : act_res M' (run M' f) s owner a tr = act_res M (run M f) s owner a tr).
+  { destruct a as [k| |r m n|r m|r m n|c]; unfold act_res; try reflexivity.
+    - apply du_recv_then; [exact IH| |].
+      + intros c Hc. destruct Hok as [_ [Hcl _]]. apply Hcl. simpl. destruct r; simpl in *; congruence.
+      + intros tr1. eapply du_call_resolve; eauto.
+    - apply du_recv_then; [exact IH| |].
+      + intros c Hc. destruct Hok as [_ [Hcl _]]. apply Hcl. simpl. destruct r; simpl in *; congruence.
+      + intros tr1. eapply du_call_resolve; eauto.
+    - destruct Hok as [_ [_ [_ Hd]]]. discriminate.
+    - apply du_recv_then; [exact IH| |reflexivity].
+      intros c' Hc'. destruct Hok as [_ [Hcl _]]. apply Hcl. simpl in *. congruence. }
+  rewrite Hact. destruct (act_res M (run M f) s owner a tr) as [tr1 []]; simpl; auto.
+Qed.
+End DU.
+
+(* T02k_delete_unused_pass_sound *)
+Theorem delete_unused_pass_sound M :
+  no_dyn M = true -> uniq_cls M = true ->
+  forall fuel, run_module fuel (du_pass M) = run_module fuel M.
+Proof.
+  intros Hnd Hu fuel. unfold run_module.
+  change (m_vars (du_pass M)) with (m_vars M). change (m_main (du_pass M)) with (m_main M).
+  apply (du_sim M Hnd Hu); [apply code_ok_main; assumption|exact Logic.I].
+Qed.
+
+Lemma nodup_filter_names {A} (nm : A -> name) (P : A -> bool) l :
+  nodup_names (map nm l) = true -> nodup_names (map nm (filter P l)) = true.
+Proof.
+  induction l as [|x tl IH]; simpl; [auto|]. intros H. apply andb_true_iff in H. destruct H as [H1 H2].
+  destruct (P x); simpl; [|auto]. rewrite (IH H2), andb_true_r. apply negb_true_iff. apply negb_true_iff in H1.
+  destruct (nmem (nm x) (map nm (filter P tl))) eqn:E; [|reflexivity].
+  apply nmem_In in E. apply in_map_iff in E. destruct E as [y [Ey Hy]]. apply filter_In in Hy.
+  assert (nmem (nm x) (map nm tl) = true); [|congruence]. apply nmem_In. apply in_map_iff. exists y. tauto.
+Qed.
+
+Lemma classes_du M :
+  classes (du_pass M) = map (du_cls M) (filter (kc M) (classes M)).
+Proof.
+  unfold classes, du_pass. cbn [m_items].
+  induction (m_items M) as [|[k|g] tl IH]; simpl; [reflexivity| |].
+  - fold (kc M k). destruct (kc M k); simpl; [f_equal|]; exact IH.
+  - destruct (fn_used M (f_name g)); simpl; exact IH.
+Qed.
+Lemma uniq_cls_du M : uniq_cls M = true -> uniq_cls (du_pass M) = true.
+Proof.
+  unfold uniq_cls. rewrite classes_du, map_map. cbn [du_cls c_name]. apply nodup_filter_names.
+Qed.
+Lemma ctx_acts_du M ctx a : In (ctx, a) (ctx_acts (du_pass M)) -> In (ctx, a) (ctx_acts M).
+Proof.
+  unfold ctx_acts, du_pass. cbn [m_items m_main]. intros H. apply in_app_or in H. apply in_or_app.
+  destruct H as [H|H]; [left|right; exact H].
+  apply in_flat_map in H. destruct H as [it [Hit Hin]]. apply in_flat_map in Hit. destruct Hit as [it0 [Hit0 Hsel]].
+  apply in_flat_map. exists it0. split; [exact Hit0|]. destruct it0 as [k|g].
+  - destruct (cls_used_in _ _ _ _ || _); [|contradiction]. destruct Hsel as [<-|[]].
+    cbn [c_meths c_name] in Hin. apply in_flat_map in Hin. destruct Hin as [x [Hx Hin]].
+    apply filter_In in Hx. apply in_flat_map. exists x. tauto.
+  - destruct (fn_used M (f_name g)); [|contradiction]. destruct Hsel as [<-|[]]. exact Hin.
+Qed.
+Lemma no_dyn_du M : no_dyn M = true -> no_dyn (du_pass M) = true.
+Proof.
+  unfold no_dyn. rewrite !forallb_forall. intros H [ctx a] Hin. apply H. apply ctx_acts_du. exact Hin.
+Qed.
+
+(* T02k_delete_unused_sound: the model of the rule (five passes) *)
+Theorem delete_unused_sound M :
+  no_dyn M = true -> uniq_cls M = true ->
+  forall fuel, run_module fuel (du_model M) = run_module fuel M.
+Proof.
+  unfold du_model. generalize 5 as n. intros n. revert M.
+  induction n as [|n IH]; intros M Hnd Hu fuel; simpl; [reflexivity|].
+  rewrite IH; [apply delete_unused_pass_sound; assumption|apply no_dyn_du; exact Hnd|apply uniq_cls_du; exact Hu].
+Qed.
+
+(* a method that is only reached through getattr(obj, "name") is deleted (known finding F02-28) *)
+Theorem delete_unused_dynamic_refuted :
+  exists M, uniq_cls M = true /\ no_dyn M = false /\ run_module 9 (du_model M) <> run_module 9 M
+            /\ snd (run_module 9 M) = OOk.
+Proof.
+  exists (mkMod [IClass (mkCls 1 None [mkMeth 1 KPlain 1 [AEv 1]; mkMeth 2 KPlain 1 [AEv 2]] [])] [] []
+                [ACall (RNew 1) 2 0; ADyn (RNew 1) 1 0]).
+  repeat split; try reflexivity. vm_compute. discriminate.
+Qed.
